@@ -81,6 +81,32 @@ def run_tlc(module, cfg, env, workers=16, timeout=3600, simulate=None, extra=Non
         shutil.rmtree(work, ignore_errors=True)
 
 
+_COV = re.compile(r"^<(\w+) line \d+, col \d+ to line \d+, col \d+ of module (\w+)>: (\d+):(\d+)")
+
+
+def action_coverage(module, cfg, env, workers=16, timeout=3600):
+    """TLC -coverage 1: {action name: distinct states it produced}.  An action that is never taken means that
+    whatever mentions it was checked vacuously on that input."""
+    lines, stats = run_tlc(module, cfg, env, workers=workers, timeout=timeout, extra=["-coverage", "1"])
+    out = {}
+    for ln in lines:
+        m = _COV.match(ln)
+        if m:
+            out[m.group(1)] = out.get(m.group(1), 0) + int(m.group(3))
+    return out, stats
+
+
+def timeline_action_coverage(problems, cfg="MC_Timeline.cfg"):
+    d = tempfile.mkdtemp(prefix="cov_")
+    try:
+        pf = os.path.join(d, "problems.json")
+        with open(pf, "w") as f:
+            json.dump(problems, f)
+        return action_coverage("MC_Timeline", cfg, {"PROBLEMS_FILE": pf})
+    finally:
+        shutil.rmtree(d, ignore_errors=True)
+
+
 def _json_lines(lines):
     for ln in lines:
         if ln.startswith('"{'):
